@@ -127,20 +127,26 @@ def main(ctx):
     res_cert = run_table(ctx, 'cert', emit=True)
     res_sig = run_table(ctx, 'sshsig', emit=True, two=True)
     res_ver = run_table(ctx, 'verify', emit=True)
-    sens = [('cert', 'closed_before'), ('sshsig', 'ignore_namespace')]
+    res_ident = run_table(ctx, 'ident', emit=True)
+    sens = [('cert', 'closed_before'), ('sshsig', 'ignore_namespace'),
+            ('ident', 'empty_is_none')]
     if not quick:
         sens += [('cert', 'no_principal'), ('cert', 'accept_unknown_critical'),
-                 ('verify', 'ignore_algname')]
+                 ('verify', 'ignore_algname'), ('ident', 'strip_compare'),
+                 ('ident', 'lower_compare'), ('ident', 'before_truthy'),
+                 ('ident', 'closed_before'), ('sshsig', 'before_truthy')]
     for table, variant in sens:
         run_table(ctx, table, variant=variant, two=False,
                   expect_violation='Equiv')
     cert_rows = rows_of(res_cert)
     sig_rows = rows_of(res_sig)
     ver_rows = rows_of(res_ver)
+    ident_rows = rows_of(res_ident)
+    ctx.require(len(ident_rows) >= 1500, f'ident rows: {len(ident_rows)}')
     ctx.require(len(cert_rows) == 82944, f'cert rows: {len(cert_rows)}')
     ctx.require(len(sig_rows) >= 5000, f'sshsig rows: {len(sig_rows)}')
     ctx.require(len(ver_rows) >= 400, f'verify rows: {len(ver_rows)}')
-    for rows in (cert_rows, sig_rows, ver_rows):
+    for rows in (cert_rows, sig_rows, ver_rows, ident_rows):
         ctx.require(any(r[1] == 'accept' for r in rows) and
                     any(r[1] == 'reject' for r in rows), 'degenerate table')
 
@@ -322,6 +328,71 @@ def main(ctx):
     ctx.require(n_acc > 0 or only.rp is not None,
                 'no SSHSIG row was accepted by the code')
 
+    # ---- 2d. identity table: wanted identity x principal list x entry ------
+    iworlds = {}
+    live = []
+    n_acc = 0
+
+    def judge_ident(row, verdict, stage, ok, exc, aname):
+        names = [D.render_name(n) for n in row['list']]
+        wanted = D.render_name(row['wanted'])
+        what = (f'entry={row["entry"]} type={row["ctype"]}/{row["want"]} '
+                f'principals={names!r} wanted={wanted!r} window='
+                f'[{D.TIMEPT[row["after"]]}, {D.TIMEPT[row["before"]]}) '
+                f'now={D.TIMEPT[row["now"]]} alg={aname}')
+        if ok and verdict == 'reject':
+            ctx.violation(
+                {'module': 'SigCert', 'table': 'ident', 'row': row,
+                 'expected_reject_at': stage},
+                f'certificate accepted for an identity / at a time the rule '
+                f'rejects (stage {stage}): {what}',
+                replay={'kind': 'ident', 'row': row, 'alg': aname})
+        elif not ok and verdict == 'accept':
+            ctx.divergence(f'ident table: rule accepts, code refuses '
+                           f'({exc_name(exc)}: {exc}): {what}')
+
+    for ri, (row, verdict, stage) in enumerate(ident_rows):
+        if not only.row('ident', row):
+            continue
+        if row['entry'] in ('login', 'hostalias'):
+            live.append((row, verdict, stage))
+            continue
+        use = [algs[ri % len(algs)]] if quick else algs
+        if only.rp is not None:
+            use = [a for a in algs if only.alg(a[0])][:1]
+        for aname, kalg, sig_alg in use:
+            if (kalg, sig_alg) not in iworlds:
+                iworlds[kalg, sig_alg] = D.IdentWorld(kalg, sig_alg)
+            ok, exc = iworlds[kalg, sig_alg].run(row)
+            note_exc('ident', exc)
+            n_acc += ok
+            ctx.count(('ident', aname, ri))
+            judge_ident(row, verdict, stage, ok, exc, aname)
+    live_algs = algs[:1] if quick else [a for a in algs if a[0] in
+                                        ('ed25519', 'ecdsa256',
+                                         'rsa-sha2-512')]
+    if only.rp is not None:
+        live_algs = [a for a in algs if only.alg(a[0])][:1]
+    for aname, kalg, sig_alg in (live_algs if live else []):
+        outs = D.live_identity_rows([r for r, _, _ in live], kalg, sig_alg)
+        for (row, verdict, stage), o in zip(live, outs):
+            ctx.count(('ident-live', aname, row['entry'],
+                       str(row['list']), str(row['wanted'])))
+            if o not in ('accept', 'reject'):
+                ctx.divergence(f'ident table (live {row["entry"]}): {o}: '
+                               f'{row}')
+                continue
+            n_acc += o == 'accept'
+            judge_ident(row, verdict, stage, o == 'accept', None, aname)
+    ctx.traces_validated(len(live) * len(live_algs))
+    ctx.require(n_acc > 0 or only.rp is not None,
+                'no identity row was accepted by the code')
+    if ident_rows and only.rp is None:
+        r0 = [r for r in ident_rows if r[0]['entry'] == 'login'][0]
+        ctx.sample({'table': 'ident', 'rows': len(ident_rows),
+                    'live_rows': len(live), 'example_row': r0[0],
+                    'rule_verdict': r0[1]}, limit=8)
+
     # ---- 3. byte sweeps -----------------------------------------------------
     masks = D.MASKS_QUICK if quick else D.MASKS_THOROUGH
     for aname, kalg, sig_alg in algs:
@@ -363,7 +434,7 @@ def main(ctx):
         if aname == algs[0][0]:
             ctx.sample({'sweep': 'certificate', 'alg': aname,
                         'single_byte_edits_per_field': fields_hit,
-                        'all_refused': True})
+                        'all_refused': True}, limit=8)
     sweep_sig_algs = algs if not quick else [a for a in algs if a[0] in
                                              ('ed25519', 'ecdsa256',
                                               'rsa-sha2-512')]
@@ -416,6 +487,11 @@ def main(ctx):
         'algorithm name "differs" means it names another algorithm: alias '
         'names of the same algorithm (ssh-rsa-sha512@ssh.com = rsa-sha2-512) '
         'are interchangeable by construction of the SSH signature format',
+        'identity table: the live rows (login with a user certificate, host '
+        'certificate checked under a host_key_alias) run on the in-memory '
+        'network with the real clock and certificates valid forever; '
+        'asyncssh has no principals= option in allowed-signers lines, so '
+        'that option is not a dimension',
         'ECDSA (r, n-s) malleability is outside the quantifier (single-byte '
         'edits) and not tested',
         'certificates are built by the harness encoder and signed with '
